@@ -16,6 +16,13 @@ func genC04(c *Ctx) {
 		ver := []int{polV3, polV2, polV2 | polV3}[c.R.Intn(3)]
 		pols := []int{ver, ver}
 		s := newSys(pols, c.R.U64())
+		// every other scenario fragments (sizes around the header length and larger)
+		if i%2 == 1 {
+			for who := 1; who <= 2; who++ {
+				s.SetFragmentSize(who, []int{40, 43, 50, 64, 85, 100, 134, 200, 355, 379}[c.R.Intn(10)]+c.R.Intn(3))
+			}
+			c.Count("fragmenting")
+		}
 		if !s.Handshake(1, 2) {
 			c.Violate("handshake-failed", fmt.Sprint(ver), "plain handshake did not complete", s.trace)
 			continue
@@ -78,5 +85,8 @@ func c04Oracle(c *Ctx, s *Sys) {
 	}
 	if s.panicked {
 		c.Violate("panic", "traffic", "a call panicked", s.trace)
+	}
+	if s.fragEarly {
+		c.Violate("early-fragment-effect", "fragmented-unit", "a piece other than the last produced plaintext, output or an error", s.trace)
 	}
 }
